@@ -10,8 +10,9 @@ worker is a real thread, but exactly one holds the baton at any time:
                     list of worker ids taken from a TLC behaviour of CubePool.tla.
 
 Chunking and exception semantics copy CPython 3.12's Pool.map: chunks of ceil(n / (4 * P))
-consecutive tasks, a raising task aborts the rest of its chunk, map re-raises the first recorded
-failure after all chunks have finished.
+consecutive tasks, a task raising an Exception aborts the rest of its chunk and map re-raises the first
+recorded failure after all chunks have finished; a task raising any other BaseException kills its worker
+and map() would never return (PoolHang).
 
 Every boundary is logged with a scheduler-global sequence number (the scheduler serialises
 everything, so the order is exact): ("take", w, chunk), ("check", w, task, raised), ("fill", w, task),
@@ -21,6 +22,10 @@ import os
 import random
 import sys
 import threading
+
+
+class PoolHang(Exception):
+    """the real pool would never return: a task raised a BaseException that is not an Exception in a worker"""
 
 
 class Scheduler:
@@ -167,6 +172,7 @@ def make_pool_class(sched):
             queue = list(chunks)
             results = [None] * len(tasks)
             failures = []
+            hung = []
             sched.log.append(("map", self.n, len(tasks), chunksize))
 
             def worker(w):
@@ -184,8 +190,11 @@ def make_pool_class(sched):
                                 sched.task_of[w] = i + 1
                                 results[i] = fn(tasks[i])
                                 sched.boundary(w, "end", w, i + 1)
+                        except Exception as e:  # noqa
+                            failures.append(e)           # CPython: the rest of the chunk is abandoned
                         except BaseException as e:  # noqa
-                            failures.append(e)
+                            hung.append(e)               # CPython: the worker thread dies, map() never returns
+                            break
                 finally:
                     sched.worker_of.pop(threading.get_ident(), None)
                     sched.task_of.pop(w, None)
@@ -201,6 +210,8 @@ def make_pool_class(sched):
                 t.join(120)
                 if t.is_alive():
                     raise RuntimeError("scheduler deadlock: worker did not finish")
+            if hung:
+                raise PoolHang(hung[0])
             if failures:
                 raise failures[0]
             return results
